@@ -39,6 +39,7 @@ type smRound struct {
 	r        uint32
 	version  uint32
 	phs      []tmconsensus.ProposedHeader
+	hidden   []tmconsensus.ProposedHeader // proposed in the network, not yet arrived at this node's mirror (peers may vote for them already)
 	votes    [2]map[string]map[int]bool // prevote, precommit: hash -> validator indices
 	shownMax [2]map[string]uint64       // per kind: max power shown to the SM per hash (incl. "" nil)
 }
@@ -1049,7 +1050,14 @@ func (w *smWorld) mutateRound(rd *smRound) bool {
 	s := w.s
 	switch s.ChooseW("mirror-mutation", []int{2, 5, 5}) {
 	case 0:
-		if len(rd.phs) >= 2 || rd.h != w.fixtureHeight() {
+		if len(rd.hidden) > 0 && s.Pct("late-proposal-arrives", 50) {
+			// a proposed header that peers have been voting on reaches this node at last
+			rd.phs = append(rd.phs, rd.hidden[0])
+			rd.hidden = rd.hidden[1:]
+			w.s.Probe("late_proposal_arrived")
+			break
+		}
+		if len(rd.phs)+len(rd.hidden) >= 3 || rd.h != w.fixtureHeight() {
 			return false
 		}
 		prop := 1 + s.Choose("proposer", w.n-1)
@@ -1057,10 +1065,14 @@ func (w *smWorld) mutateRound(rd *smRound) bool {
 		ph.Round = rd.r
 		w.fx.RecalculateHash(&ph.Header)
 		w.fx.SignProposal(context.Background(), &ph, prop)
-		for _, have := range rd.phs {
+		for _, have := range append(append([]tmconsensus.ProposedHeader(nil), rd.phs...), rd.hidden...) {
 			if string(have.Header.Hash) == string(ph.Header.Hash) {
 				return false
 			}
+		}
+		if len(rd.hidden) == 0 && s.Pct("proposal-held-back", 35) {
+			rd.hidden = append(rd.hidden, ph)
+			return true // nothing this node can see has changed
 		}
 		rd.phs = append(rd.phs, ph)
 	default:
@@ -1076,6 +1088,9 @@ func (w *smWorld) mutateRound(rd *smRound) bool {
 		}
 		opts := []string{""}
 		for _, ph := range rd.phs {
+			opts = append(opts, string(ph.Header.Hash))
+		}
+		for _, ph := range rd.hidden {
 			opts = append(opts, string(ph.Header.Hash))
 		}
 		hash := opts[s.Choose("vote-target", len(opts))]
